@@ -225,6 +225,46 @@ def raise_sites():
     return out
 
 
+def material_pairing():
+    """How Material.__init__ pairs the flat entry list of a material (the ListNode branch: nuclides written without a
+    library suffix), read off the AST.  -> one of batchedUnpack (batches of two, the loop unpacks `a, b`: a leftover
+    entry raises ValueError), zipStrict (zip(..., strict=True): raises ValueError), zipTruncating (plain zip: a
+    leftover entry is DROPPED silently), unknown (an idiom this plug-in does not know: the obligation C13_pairing
+    stays open until somebody looks)."""
+    fn = _func(_src("montepy/data_inputs/material.py"), "Material.__init__")
+    branch = None
+    for n in ast.walk(fn):
+        if isinstance(n, ast.If) and isinstance(n.test, ast.Call) and _callname(n.test) == "isinstance" and len(n.test.args) == 2 and _name(n.test.args[1]) == "ListNode":
+            branch = n
+            break
+    if branch is None:
+        return "unknown"
+    body = ast.Module(body=branch.body, type_ignores=[])
+    calls = [c for c in ast.walk(body) if isinstance(c, ast.Call)]
+    names = [_callname(c) for c in calls]
+    # the consumer: `for a, b in iterator:` unpacks every batch into exactly two names
+    unpacks = any(
+        isinstance(n, ast.For) and isinstance(n.target, ast.Tuple) and len(n.target.elts) == 2 and isinstance(n.iter, ast.Name) and n.iter.id == "iterator"
+        for n in ast.walk(fn)
+    )
+    if "zip" in names:
+        z = [c for c in calls if _callname(c) == "zip"][0]
+        strict = any(k.arg == "strict" and isinstance(k.value, ast.Constant) and k.value.value is True for k in z.keywords)
+        return "zipStrict" if strict else "zipTruncating"
+    if "batched" in names or ("islice" in names and any(_callname(c) == "islice" and len(c.args) == 2 and isinstance(c.args[1], ast.Constant) and c.args[1].value == 2 for c in calls)):
+        return "batchedUnpack" if unpacks else "unknown"
+    return "unknown"
+
+
+def _callname(c):
+    f = c.func
+    if isinstance(f, ast.Name):
+        return f.id
+    if isinstance(f, ast.Attribute):
+        return f.attr
+    return None
+
+
 def _resolve(name):
     if hasattr(E, name) and inspect.isclass(getattr(E, name)):
         return getattr(E, name)
@@ -274,5 +314,8 @@ def generate(write):
     body += "def raises : Site → List Cls\n"
     for s, lst in sites.items():
         body += f"  | .{s} => [" + ", ".join("." + n for n in lst) + "]\n"
+    body += "\n/-- how Material.__init__ pairs the flat (nuclide, fraction) list of a material written without library\n    suffixes (from the AST of the ListNode branch) -/\n"
+    body += "inductive Pairing\n  | batchedUnpack\n  | zipStrict\n  | zipTruncating\n  | unknown\n  deriving DecidableEq, Repr\n\n"
+    body += f"def materialPairing : Pairing := .{material_pairing()}\n"
     body += "\nend MontePyVerif.Gen.Errors\n"
     write("Errors.lean", body)
